@@ -245,6 +245,22 @@ func vPrintMsg(m *vMsg, nested map[*vMsg][]*vMsg, indent string) string {
 // vSame: td is the descriptor of model message m: exactly its fields with number, names, kind,
 // repeated / map structure, and message-typed fields lead to the descriptor of the very message
 // named in the schema (checked recursively to the given depth).
+// vKindPredicates: the integer / unsigned classification of a scalar type descriptor is that of the declared kind.
+func vKindPredicates(t *TypeDescriptor, k descriptorpb.FieldDescriptorProto_Type, label string) {
+	isInt, isUint := false, false
+	switch k {
+	case descriptorpb.FieldDescriptorProto_TYPE_INT32, descriptorpb.FieldDescriptorProto_TYPE_INT64,
+		descriptorpb.FieldDescriptorProto_TYPE_SINT32, descriptorpb.FieldDescriptorProto_TYPE_SINT64,
+		descriptorpb.FieldDescriptorProto_TYPE_SFIXED32, descriptorpb.FieldDescriptorProto_TYPE_SFIXED64:
+		isInt = true
+	case descriptorpb.FieldDescriptorProto_TYPE_UINT32, descriptorpb.FieldDescriptorProto_TYPE_UINT64,
+		descriptorpb.FieldDescriptorProto_TYPE_FIXED32, descriptorpb.FieldDescriptorProto_TYPE_FIXED64:
+		isInt, isUint = true, true
+	}
+	vrt.Assert(t.Type().IsInt() == isInt, label+".is-int")
+	vrt.Assert(t.Type().IsUint() == isUint, label+".is-uint")
+}
+
 func vSame(td *TypeDescriptor, m *vMsg, depth int, label string) {
 	vrt.Assert(td != nil && td.Type() == MESSAGE && td.Message() != nil, label+".is-message")
 	if td == nil || td.Type() != MESSAGE || td.Message() == nil {
@@ -268,6 +284,7 @@ func vSame(td *TypeDescriptor, m *vMsg, depth int, label string) {
 				continue
 			}
 			vrt.Assert(t.Key().Type() == Type(f.key.typ), label+".map.key-kind")
+			vKindPredicates(t.Key(), f.key.typ, label+".map.key")
 			vrt.Assert(fd.MapKey() == t.Key() && fd.MapValue() == t.Elem(), label+".map.field-accessors")
 			if f.val.typ == descriptorpb.FieldDescriptorProto_TYPE_MESSAGE {
 				if f.shallow {
@@ -303,6 +320,7 @@ func vSame(td *TypeDescriptor, m *vMsg, depth int, label string) {
 			}
 		default:
 			vrt.Assert(t.Type() == Type(f.typ) && !t.IsList() && !t.IsMap(), label+".scalar.kind")
+			vKindPredicates(t, f.typ, label+".scalar")
 		}
 	}
 	// undeclared numbers and names are not found
@@ -357,6 +375,8 @@ func VerifC15_Parse() {
 	Req.add(&vFld{num: 1, name: "a", typ: descriptorpb.FieldDescriptorProto_TYPE_MESSAGE, msg: A})
 	Req.add(&vFld{num: 2, name: "b", typ: descriptorpb.FieldDescriptorProto_TYPE_MESSAGE, msg: B})
 	Req.add(&vFld{num: 3, name: "self", typ: descriptorpb.FieldDescriptorProto_TYPE_MESSAGE, msg: Req})
+	Req.add(&vFld{num: 11, name: "uid", js: "UID", typ: descriptorpb.FieldDescriptorProto_TYPE_STRING})        // explicit JSON name of the same length
+	Req.add(&vFld{num: 12, name: "trace_id", js: "trace-id", typ: descriptorpb.FieldDescriptorProto_TYPE_INT64}) // ... and with a character no default name has
 	Req.add(&vFld{num: 9, name: "selfs", typ: descriptorpb.FieldDescriptorProto_TYPE_MESSAGE, msg: Req, repeated: true, shallow: true})
 	Req.addMap(10, "selfm", descriptorpb.FieldDescriptorProto_TYPE_STRING, descriptorpb.FieldDescriptorProto_TYPE_MESSAGE, Req).shallow = true
 	Req.addMap(4, "mp", kt, descriptorpb.FieldDescriptorProto_TYPE_MESSAGE, BM)
